@@ -340,6 +340,16 @@ def run(model, rep, tier):
         rep.check(okk, "R-14.7", gs7.qualname, where(gs7, vals[0].ast), "a TSIG RR with a non-zero TTL is refused before validation (the digest assumes 0)",
                   "_digest packs a constant 0 for the TSIG TTL, and nothing refuses a TSIG RR whose wire TTL is not 0 before dns.tsig.validate: flipping any of the 32 TTL bits of a signed "
                   "message still validates", stmt="tsig-ttl")
+    mr14 = model.func("dns.message.make_response")
+    st14 = [x for x in ast.walk(mr14.node) if isinstance(x, ast.Assign) and any(src(t_).endswith(".request_mac") for t_ in x.targets)]
+    if len(st14) != 1:
+        rep.blind("R-14.5", mr14.qualname, where(mr14, mr14.node), "the `response.request_mac = query.mac` store was not found", stmt="response-bound-to-request")
+    else:
+        encl = [n for n in ast.walk(mr14.node) if isinstance(n, ast.If) and any(y is st14[0] for b in n.body + n.orelse for y in ast.walk(b))]
+        extra = [n for n in encl if not any(a[0].endswith(".had_tsig") or a[0].endswith(".keyring") for a in atoms(normalise_compare(n.test)))]
+        rep.check(src(st14[0].value).endswith(".mac") and not extra, "R-14.5", mr14.qualname, where(mr14, st14[0]), "every response to a signed query is bound to the query's MAC",
+                  f"`{src(st14[0])}` is conditional on `{src(extra[0].test)[:40]}`: some responses to a signed query (e.g. those carrying a TSIG error, which RFC 8945 5.2.3 still signs with the request MAC) "
+                  "are signed as if bound to no request" if extra else "the response is not bound to `query.mac`", stmt="response-bound-to-request")
     for qn in ("dns.renderer.Renderer.add_tsig", "dns.renderer.Renderer.add_multi_tsig"):
         f9 = model.func(qn)
         mk9 = [c for c in ast.walk(f9.node) if isinstance(c, ast.Call) and src(c.func).endswith("_make_tsig") and len(c.args) >= 2]
@@ -360,6 +370,8 @@ def run(model, rep, tier):
 
 
 WITNESSES = [
+    {"id": "c14-error-response-not-bound", "rule": "R-14.5", "file": "dns/message.py", "expect": "fires",
+     "old": "        response.request_mac = query.mac\n    return response", "new": "        if not tsig_error:\n            response.request_mac = query.mac\n    return response"},
     {"id": "c14-add-tsig-template-from-argument", "rule": "R-14.9", "file": "dns/renderer.py", "expect": "fires",
      "old": "            keyname, key.algorithm, 0, fudge, b\"\", id, tsig_error, other_data\n        )\n        tsig, _ = dns.tsig.sign(s, key, tsig[0], int(time.time()), request_mac)",
      "new": "            keyname, algorithm, 0, fudge, b\"\", id, tsig_error, other_data\n        )\n        tsig, _ = dns.tsig.sign(s, key, tsig[0], int(time.time()), request_mac)"},
